@@ -568,5 +568,9 @@ theorem c02_shape_Tree_Search :
     Shapes.tree_Tree_Search =
    ["if:tns.ID.Equal(tn)", "Root.Visit", "return:ret"] := rfl
 
+theorem c02_shape_ServerIdentity_Equal :
+    Shapes.network_struct_ServerIdentity_Equal =
+   ["if:((((si==nil)||(e2==nil))||(si.Public==nil))||(e2.Public==nil))", "return:false", "return:si.Public.Equal(e2.Public)"] := rfl
+
 
 end C02
